@@ -332,6 +332,9 @@ class Ctx:
     def _run_one_inner(s, h):
         res = dict(name=h.name, desc=h.desc, functions=h.functions, stubs=h.stubs, bounds=h.bounds, backend=h.backend,
                    unwind=h.unwind, unwindset=h.unwindset)
+        if os.environ.get('VF_SHOWCMD'):      # debugging aid: the exact solver command lines of this harness (run them from the VF_KEEP work dir)
+            import shlex
+            open('/tmp/vf_cmd_%s.txt' % h.name, 'w').write('cd %s\n%s\n%s\n' % (s.work, ' '.join(shlex.quote(x) for x in cbmc_cmd(h, h.cfile, cover=True)), ' '.join(shlex.quote(x) for x in cbmc_cmd(h, h.cfile))))
         # cover twin first: reachability of every VF_REACH goal
         if h.cover:
             r = run_capped(cbmc_cmd(h, h.cfile, cover=True), min(h.timeout, 600), h.mem_gb, cwd=s.work)
